@@ -17,6 +17,9 @@ var vC10Shapes = []string{
 	`{"t":T,"v":{"list":[null]}}`, `{"t":T,"v":{"list":[{"t":0,"v":N},null]}}`, `{"t":T,"v":{"list":null}}`, `{"t":T,"v":{"list":[{"t":U}]}}`,
 	`{"t":T,"v":{"dict":{"k":null}}}`, `{"t":T,"v":{"dict":{"k":{"t":U}}}}`, `{"t":T,"v":{"dict":null}}`, `{"t":T,"v":{"dict":{"k":{"t":U,"v":{"list":[null]}}}}}`,
 	`{"t":T,"v":{"expr":"1+","attrs":null}}`, `{"t":T,"v":{"expr":"this.a","attrs":{"a":null}}}`, `{"t":T,"v":{"expr":"x","name":"fn1","params":null}}`, `{"t":T,"v":{"expr":"return a","name":"fn1","params":["a"]}}`,
+	// native-function names that exist somewhere in the library but not as free functions: methods of the built-in types
+	`{"t":T,"v":{"name":"Array.sum"}}`, `{"t":T,"v":{"name":"Dict.keys"}}`, `{"t":T,"v":{"name":"Computed.compute"}}`, `{"t":T,"v":{"name":"sum"}}`, `{"t":T,"v":{"name":"Array.kh"}}`, `{"t":T,"v":{"name":"ceil"}}`,
+	`{"t":T,"v":{"name":"Array.sum","self":null}}`, `{"t":T,"v":{"name":"Str.len"}}`,
 	`{"t":T,"v":[1,2]}`, `{"t":T,"v":{"list":{"a":1}}}`, `{"t":T,"v":{}}`, `null`, `[]`, `"str"`, `12`, `{"t":"0"}`, `{"t":1.5}`, `{"T":T,"V":N}`, `{}`,
 }
 
@@ -55,7 +58,7 @@ func vC10Battery(v *VMValue, script string) {
 	vObserveAll(vm, err)
 }
 
-//vh:prop=C10 tiers=quick,thorough sigkeys=shape,script unwind=6 unwind_ok=1 depth_is_violation=1 maxdepth=4000 maxsteps=150000000 budget_s=1800 quick:P.scripts=8 thorough:P.scripts=30 bounds="32 document shapes (well-typed, ill-typed, missing / null fields, nested nulls, unknown native names, wrong container kinds, scalars, wrong-case keys) with the type tags and numbers as 64-bit solver symbols (so every known and unknown tag is a case of the decoder's switch), decoded with VMValueFromJSON through the real UnmarshalJSON code (JSON syntax and struct mapping by the engine's encoding/json model); every successfully decoded value goes through printing, repr, truthiness, equality, clone, re-serialisation, dict-key use and a script (quick: 8 scripts, thorough: 30) binding it to a variable: no panic site may be reachable"
+//vh:prop=C10 tiers=quick,thorough sigkeys=shape,script unwind=6 unwind_ok=1 depth_is_violation=1 maxdepth=4000 maxsteps=150000000 budget_s=1800 quick:P.scripts=8 thorough:P.scripts=30 bounds="40 document shapes (well-typed, ill-typed, missing / null fields, nested nulls, unknown native names, wrong container kinds, scalars, wrong-case keys) with the type tags and numbers as 64-bit solver symbols (so every known and unknown tag is a case of the decoder's switch), decoded with VMValueFromJSON through the real UnmarshalJSON code (JSON syntax and struct mapping by the engine's encoding/json model); every successfully decoded value goes through printing, repr, truthiness, equality, clone, re-serialisation, dict-key use and a script (quick: 8 scripts, thorough: 30) binding it to a variable: no panic site may be reachable"
 func VH_C10_value() {
 	si := vChoice("shape", len(vC10Shapes))
 	doc := vC10Doc(vC10Shapes[si])
